@@ -17,21 +17,21 @@
     Parser proper (tlparser_code.go, tlparser_typeref.go): transcribed function by function, reduced to its
     control flow, in Lex/LexParse1Model.v ([parseTLFile] = tokenizer + [parseTokens]); the model is compared with
     the real ParseTLFile on every run (corr:C19:lex, field P1: ok / error class, outer, begin and end position).
-    Proved for ALL inputs and every fuel ([C19_parser_safe_partial]): the parser model never reaches one of the
-    panic sites of the Go code (tokenIterator.front/popFront out of range -- eof is never popped --, the
-    log.Panicf calls of skipWS / expectOrPanic / splitIdenNSFromToken, val[1:] on an empty value, the nil
-    dereference in parseArithmetic, the "unexpected token in whitespace" panic and the fileContent[a:b] slices of
-    parseCommentBefore / parseCommentRight / ParseTLFile), and every error it returns is located at a token of
-    the input with the first token of the combinator as outer context, hence lies inside the text and is
-    printed by consolePrint without any out-of-range slice.
-    Why "_partial": the model uses structural fuel (10 * (tokens + 2)); that this budget is never exhausted
-    ([PR_nofuel]) is not proved, only checked on every input of the correspondence run.  Not modelled:
-    Combinator.crc32() (runs on the finished AST) and the AST construction itself; for those the
-    implementation-side oracle applies (recover(), error offsets, ConsolePrint/Error() do not panic).
+    Proved for ALL inputs ([C19_parser_total]): the parser model terminates within its structural fuel
+    (10 * (tokens + 2); the proof is the termination argument of the recursive-descent parser: every
+    recursive call happens after a consumed token or goes down an acyclic order of non-consuming calls),
+    never reaches one of the panic sites of the Go code (tokenIterator.front/popFront out of range -- eof is
+    never popped --, the log.Panicf calls of skipWS / expectOrPanic / splitIdenNSFromToken, val[1:] on an
+    empty value, the nil dereference in parseArithmetic, the "unexpected token in whitespace" panic and the
+    fileContent[a:b] slices of parseCommentBefore / parseCommentRight / ParseTLFile), and every error it
+    returns is located at a token of the input with the first token of the combinator as outer context,
+    hence lies inside the text and is printed by consolePrint without any out-of-range slice.
+    Not modelled: Combinator.crc32() (runs on the finished AST) and the AST construction itself; for those
+    the implementation-side oracle applies (recover(), error offsets, ConsolePrint/Error() do not panic).
     [C19_parser_error_in_range_partial] is the same in-range statement for the abstract error model
     [admissibleErr] (kept because C20 uses it for the TL2 parser). *)
 From Coq Require Import List NArith ZArith.
-From TLV Require Import Lex.LexModel Lex.LexProofs Lex.LexParse1Model Lex.LexParse1Proofs.
+From TLV Require Import Lex.LexModel Lex.LexProofs Lex.LexParse1Model Lex.LexParse1Proofs Lex.LexParse1Fuel.
 Import ListNotations.
 Open Scope N_scope.
 
@@ -105,8 +105,8 @@ Theorem C19_parser_error_in_range_partial : forall builtin dirty s toks e,
 Proof. exact (fun b d => parser_error_in_range (opt b d)). Qed.
 Print Assumptions C19_parser_error_in_range_partial.
 
-(** tokenizer + transcribed parser: no panic site reachable, every error in range (see header for "_partial") *)
-Theorem C19_parser_safe_partial : forall builtin dirty s,
+(** tokenizer + transcribed parser: terminates within the fuel, no panic site reachable, every error in range *)
+Theorem C19_parser_total : forall builtin dirty s,
   match parseTLFile (opt builtin dirty) s with
   | PR_ok => True
   | PR_err _ e =>
@@ -116,18 +116,13 @@ Theorem C19_parser_safe_partial : forall builtin dirty s,
       (exists pre, e_begin e = pos_spec pre /\ exists post, s = pre ++ t_val (e_tok e) ++ post) /\
       (exists pre, e_outer e = pos_spec pre /\ exists post, s = pre ++ post)
   | PR_panic => False
-  | PR_nofuel => True
+  | PR_nofuel => False
   end.
-Proof. exact (fun b d => parseTLFile_safe (opt b d)). Qed.
-Print Assumptions C19_parser_safe_partial.
-
-(** the fuel of the tokenizer is always sufficient; only the parser budget is unproved *)
-Theorem C19_nofuel_only_parser : forall builtin dirty s,
-  parseTLFile (opt builtin dirty) s = PR_nofuel ->
-  exists toks, parseFront (opt builtin dirty) s = Ok (F_tokens toks) /\
-               parseTokens (lenN s) builtin toks = P_nofuel.
-Proof. exact (fun b d => parseTLFile_nofuel_only_parser (opt b d)). Qed.
-Print Assumptions C19_nofuel_only_parser.
+Proof.
+  intros b d s. pose proof (parseTLFile_safe (opt b d) s) as H. pose proof (parseTLFile_fuel (opt b d) s) as Hf.
+  destruct (parseTLFile (opt b d) s); auto.
+Qed.
+Print Assumptions C19_parser_total.
 
 (** Non-vacuity: the model really tokenizes, reports errors, and the hypotheses are satisfiable. *)
 (* "a#1a2b3c4d x:int = A;\n" *)
